@@ -532,6 +532,12 @@ def corpus():
                 b"destination=dtn://a/b\nlifetime=584942417y", b"destination=dtn://a/b\nlifetime=18446744073709551s 615ms",
                 b"destination=dtn://a/b\nlifetime=18446744073709551s 616ms", b"destination=dtn://a/b\nlifetime=1h 30m\nlifetime=0"]:
         out.append(cli_line(c, [b"bp7", b"encode", b"@m", b"-", b"-x"], b"p", [(b"@m", man)]))
+    # every flag bit on its own and every pair of flag bits: a valid flag word is printed, an invalid one refused (the rules look at
+    # combinations: administrative record with a report request, must-not-fragment with is-fragment ...)
+    bits = [0x1, 0x2, 0x4, 0x20, 0x40, 0x4000, 0x10000, 0x20000, 0x40000, 0x8, 0x10, 0x200, 0x2000, 0x80000, 2 ** 40, 2 ** 63]
+    for i, b1 in enumerate(bits):
+        for b2 in bits[i:]:
+            out.append(cli_line(c, [b"bp7", b"encode", b"@m", b"-", b"-x"], b"p", [(b"@m", b"destination=dtn://a/b\nflags=%d\n" % (b1 | b2))]))
     out.append(cli_line(c, [b"bp7", b"encode", b"@m", b"@m"], b"", [(b"@m", b"destination=dtn://a/b\n")]))          # manifest as payload
     out.append(cli_line(c, [b"bp7", b"encode", b"@m", b"@m", b"-x"], b"", [(b"@m", b"destination=dtn://a/b\n"), (b"@m", b"other")]))
     return out
